@@ -6,7 +6,7 @@ listed in the evidence (`lib_contracts_used`, `lib_pure_uf`).
 import ast
 import z3
 
-from .values import (SDict, V, NONE, Unsupported, PyRaise, ExcVal, Obj, Seq, SymMap, SliceVal, RangeVal,
+from .values import (is_symbolic_key, SDict, V, NONE, Unsupported, PyRaise, ExcVal, Obj, Seq, SymMap, SliceVal, RangeVal,
                      Cx, Opaque, is_z3, is_int, is_real, is_bool, is_v, is_num, to_z3, to_real,
                      to_int, concrete_int, concrete_bool, ite, veq, uf, fresh_bool, fresh_int,
                      fresh_v, fresh_real, real_const, to_cx, keq, round_half_even, trunc, NpScalar)
@@ -171,14 +171,14 @@ def getitem(ip, o, idx):
         raise PyRaise(ExcVal('TypeError', ('bad index type',)))
     if isinstance(o, dict):
         sym = getattr(o, 'sym', None)
-        if isinstance(idx, (str, int, bool, tuple)) or idx is None:
+        if (isinstance(idx, (str, int, bool, tuple)) or idx is None) and not is_symbolic_key(idx):
             if idx in o:
                 return o[idx]
             if sym is not None and not isinstance(idx, str) and ip.decide(sym.has(idx), 'dictkey-sym'):
                 return sym.get(idx)
             raise PyRaise(ExcVal('KeyError', (idx,)))
         # symbolic key into a concrete dict
-        for k, v in o.items():
+        for k, v in list(o.items()):
             if not isinstance(k, str) and ip.decide(keq(idx, k), 'dictkey'):
                 return v
         if sym is not None and ip.decide(sym.has(idx), 'dictkey-sym'):
@@ -320,7 +320,7 @@ def setitem(ip, o, idx, v):
         o.fn = lambda i: ite(i == ipx, v, old(i))
         return
     if isinstance(o, dict):
-        if is_z3(idx):
+        if is_symbolic_key(idx):
             if not isinstance(o, SDict):
                 raise Unsupported('symbolic key store into concrete dict')
             for k in list(o.keys()):
@@ -442,7 +442,10 @@ def binop(ip, op, a, b):
         return Seq(b.length, lambda i: binop(ip, op, a, b.fn(i)), 'ndarray')
     if isinstance(a, Cx) or isinstance(b, Cx):
         if is_v(a) or is_v(b):
-            raise Unsupported('complex with opaque')
+            nm = _OPNAMES.get(type(op).__name__, 'op')
+            if isinstance(a, Cx):
+                return uf('cx_%s_left' % nm, a.re, a.im, b)
+            return uf('cx_%s_right' % nm, a, b.re, b.im)
         a, b = to_cx(a), to_cx(b)
         ip.flags.add('REAL_FLOAT')
         if isinstance(op, ast.Add):
@@ -662,7 +665,7 @@ def contains(ip, container, x):
         container = container.m
     if isinstance(container, dict):
         sym = getattr(container, 'sym', None)
-        if not is_z3(x):
+        if not is_symbolic_key(x):
             if x in container or sym is None or isinstance(x, str):
                 return x in container
             return sym.has(x)
@@ -738,7 +741,7 @@ def _list_method(ip, o, attr):
     def index(ip_, args, kw):
         raise Unsupported('list.index')
     table = {'append': append, 'insert': insert, 'extend': extend, 'pop': pop, 'copy': copy_,
-             'reverse': reverse, 'index': index}
+             'reverse': reverse, 'index': index, 'tolist': copy_}
     if attr in table:
         return I.Builtin('list.' + attr, table[attr])
     raise Unsupported('list.%s' % attr)
@@ -1256,6 +1259,8 @@ def b_sorted(ip, args, kw):
     items = ip.iter_values(v)
     if isinstance(items, list) and len(items) <= 1:
         return list(items)
+    if isinstance(items, list) and all(isinstance(x, (int, float)) and not isinstance(x, bool) for x in items):
+        return sorted(items)
     if isinstance(items, list) and len(items) <= 4 and all(is_num(x) for x in items):
         # sorting network via min/max (insertion sort on symbolic values)
         xs = list(items)
@@ -1573,7 +1578,7 @@ def np_abs(ip, args, kw):
 
 LIB = {
     'numpy.nonzero': np_nonzero, 'numpy.ceil': np_ceil, 'numpy.floor': np_floor, 'numpy.abs': np_abs, 'numpy.absolute': np_abs,
-    'numpy.arange': np_arange, 'numpy.array': np_array, 'numpy.round': np_round,
+    'numpy.arange': np_arange, 'numpy.array': np_array, 'numpy.asarray': np_array, 'numpy.round': np_round,
     'numpy.min': np_min, 'numpy.max': np_max, 'numpy.append': np_append,
     'numpy.allclose': np_allclose, 'numpy.isclose': np_isclose, 'math.isclose': np_isclose, 'copy.copy': copy_copy, 'copy.deepcopy': copy_deepcopy,
     'copy': copy_copy, 'deepcopy': copy_deepcopy,
@@ -1594,7 +1599,8 @@ def call_library(ip, dotted, args, kw):
         return LIB[dotted](ip, args, kw)
     if dotted.startswith(PURE_PREFIXES):
         ip.lib_pure.add(dotted)
-        extra = [v for k, v in sorted(kw.items()) if not isinstance(v, (ModuleRef,))]
+        I = _interp_types()
+        extra = [v for k, v in sorted(kw.items()) if not isinstance(v, (ModuleRef, I.TypeTok))]
         flat = []
         for a in list(args) + extra:
             if isinstance(a, ModuleRef):
